@@ -7,6 +7,7 @@ expression parse returns a `WellFormed` node.
 -/
 namespace Ecal.Parse
 open Ecal.Lex
+variable {ts : List Tok}
 
 abbrev ET : Err → Prop := fun _ => True
 
@@ -19,29 +20,29 @@ macro "wlast " h:term : tactic => `(tactic| apply Sat.mono $h (fun _ _ => trivia
 def identSig (s : Sig) : Bool := s.1 = "identifier" || s.1 = "funccall" || (s.1 = "compaccess" && s.2 = 1)
 def exceptSig (s : Sig) : Bool := s.1 = "except"
 
-structure SpecsW (f : Nat) : Prop where
-  run : ∀ rbp p, Cur p → Sat (run f rbp) p (fun r p' => Cur p' ∧ ResW r) ET
-  loopLed : ∀ rbp left p, Cur p → ResW left → Sat (loopLed f rbp left) p (fun r p' => Cur p' ∧ ResW r) ET
-  nudOf : ∀ self p, Cur p → Fresh self → self.nud ≠ .none → Sat (nudOf f self) p (fun r p' => Cur p' ∧ ResW r) ET
-  exprList : ∀ stop acc p, Cur p → KW acc → Sat (exprList f stop acc) p (fun r p' => Cur p' ∧ ∃ e, Ext acc r e) ET
-  sinkAttrs : ∀ acc p, Cur p → KW acc → Sat (sinkAttrs f acc) p (fun r p' => Cur p' ∧ ∃ e, Ext acc r e) ET
-  guardAndStatements : ∀ acc p, Cur p → KW acc → Sat (guardAndStatements f acc) p
-    (fun r p' => Cur p' ∧ ∃ k, Ext acc r [("guard", 1), ("statements", k)]) ET
-  elifs : ∀ acc p, Cur p → KW acc → Sat (elifs f acc) p
-    (fun r p' => Cur p' ∧ ∃ e, Ext acc r e ∧ ifShape e = true) ET
-  excepts : ∀ acc p, Cur p → KW acc → Sat (excepts f acc) p
-    (fun r p' => Cur p' ∧ ∃ e, Ext acc r e ∧ e.all exceptSig = true) ET
-  exceptTypes : ∀ acc p, Cur p → KW acc → Sat (exceptTypes f acc) p (fun r p' => Cur p' ∧ ∃ e, Ext acc r e) ET
-  parseMore : ∀ self acc p, Cur p → (∃ t, self.tok = some t) → KW acc → Sat (parseMore f self acc) p
-    (fun r p' => Cur p' ∧ ∃ e, Ext acc r e ∧ e.all identSig = true) ET
-  innerStatements : ∀ acc p, Cur p → KW acc → Sat (innerStatements f acc) p
-    (fun r p' => Cur p' ∧ ∃ k, Ext acc r [("statements", k)]) ET
-  moreStatements : ∀ acc n p, Cur p → (∃ t, n.tok = some t) → KW acc → Sat (moreStatements f acc n) p
-    (fun r p' => Cur p' ∧ ∃ e, Ext acc r e) ET
-  topLoop : ∀ acc n p, Cur p → (∃ t, n.tok = some t) → KW acc → Sat (topLoop f acc n) p
-    (fun r p' => Cur p' ∧ ∃ e, Ext acc r e) ET
+structure SpecsW (ts : List Tok) (f : Nat) : Prop where
+  run : ∀ rbp p, Cur ts p → Sat (run f rbp) p (fun r p' => Cur ts p' ∧ ResW r) ET
+  loopLed : ∀ rbp left p, Cur ts p → ResW left → Sat (loopLed f rbp left) p (fun r p' => Cur ts p' ∧ ResW r) ET
+  nudOf : ∀ self p, Cur ts p → Fresh self → self.nud ≠ .none → Sat (nudOf f self) p (fun r p' => Cur ts p' ∧ ResW r) ET
+  exprList : ∀ stop acc p, Cur ts p → KW acc → Sat (exprList f stop acc) p (fun r p' => Cur ts p' ∧ ∃ e, Ext acc r e) ET
+  sinkAttrs : ∀ acc p, Cur ts p → KW acc → Sat (sinkAttrs f acc) p (fun r p' => Cur ts p' ∧ ∃ e, Ext acc r e) ET
+  guardAndStatements : ∀ acc p, Cur ts p → KW acc → Sat (guardAndStatements f acc) p
+    (fun r p' => Cur ts p' ∧ ∃ k, Ext acc r [("guard", 1), ("statements", k)]) ET
+  elifs : ∀ acc p, Cur ts p → KW acc → Sat (elifs f acc) p
+    (fun r p' => Cur ts p' ∧ ∃ e, Ext acc r e ∧ ifShape e = true) ET
+  excepts : ∀ acc p, Cur ts p → KW acc → Sat (excepts f acc) p
+    (fun r p' => Cur ts p' ∧ ∃ e, Ext acc r e ∧ e.all exceptSig = true) ET
+  exceptTypes : ∀ acc p, Cur ts p → KW acc → Sat (exceptTypes f acc) p (fun r p' => Cur ts p' ∧ ∃ e, Ext acc r e) ET
+  parseMore : ∀ self acc p, Cur ts p → (∃ t, self.tok = some t) → KW acc → Sat (parseMore f self acc) p
+    (fun r p' => Cur ts p' ∧ ∃ e, Ext acc r e ∧ e.all identSig = true) ET
+  innerStatements : ∀ acc p, Cur ts p → KW acc → Sat (innerStatements f acc) p
+    (fun r p' => Cur ts p' ∧ ∃ k, Ext acc r [("statements", k)]) ET
+  moreStatements : ∀ acc n p, Cur ts p → (∃ t, n.tok = some t) → KW acc → Sat (moreStatements f acc n) p
+    (fun r p' => Cur ts p' ∧ ∃ e, Ext acc r e) ET
+  topLoop : ∀ acc n p, Cur ts p → (∃ t, n.tok = some t) → KW acc → Sat (topLoop f acc n) p
+    (fun r p' => Cur ts p' ∧ ∃ e, Ext acc r e) ET
 
-theorem specsW_zero : SpecsW 0 := by
+theorem specsW_zero : SpecsW ts 0 := by
   constructor <;> intros <;>
     first
     | (rw [run]; exact Sat.throw trivial)
@@ -74,8 +75,8 @@ theorem wf_statements {bb : Nat} {st : Node} {e : List Sig} (h : Ext (instanceOf
   have hn : st.name = "statements" := by rw [h.name, name_statements]
   exact ⟨h.wf (by rw [hn]; exact shapeOk_container (by decide)), hn⟩
 
-theorem exprListW {f : Nat} (ih : SpecsW f) (stop : List Nat) (acc : Node) (p : P) (hc : Cur p) (hacc : KW acc) :
-    Sat (exprList (f+1) stop acc) p (fun r p' => Cur p' ∧ ∃ e, Ext acc r e) ET := by
+theorem exprListW {f : Nat} (ih : SpecsW ts f) (stop : List Nat) (acc : Node) (p : P) (hc : Cur ts p) (hacc : KW acc) :
+    Sat (exprList (f+1) stop acc) p (fun r p' => Cur ts p' ∧ ∃ e, Ext acc r e) ET := by
   rw [exprList]
   wpr (isNotEndAndNotTokens_spec _ hc)
   rintro b _ rfl
@@ -89,8 +90,8 @@ theorem exprListW {f : Nat} (ih : SpecsW f) (stop : List Nat) (acc : Node) (p : 
     exact ⟨hc3, _, he.of_add⟩
   · exact Sat.pure ⟨hc, [], Ext.refl hacc⟩
 
-theorem sinkAttrsW {f : Nat} (ih : SpecsW f) (acc : Node) (p : P) (hc : Cur p) (hacc : KW acc) :
-    Sat (sinkAttrs (f+1) acc) p (fun r p' => Cur p' ∧ ∃ e, Ext acc r e) ET := by
+theorem sinkAttrsW {f : Nat} (ih : SpecsW ts f) (acc : Node) (p : P) (hc : Cur ts p) (hacc : KW acc) :
+    Sat (sinkAttrs (f+1) acc) p (fun r p' => Cur ts p' ∧ ∃ e, Ext acc r e) ET := by
   rw [sinkAttrs]
   wpr (isNotEndAndNotTokens_spec _ hc)
   rintro b _ rfl
@@ -118,8 +119,8 @@ theorem accept_wf {c : Node} {id : Nat} (h : Fresh c) (hid : ∃ t, c.tok = some
     refine ⟨(wf_iff c).2 ⟨h.KW, ?_⟩, by simp [ha, hn]⟩
     rw [h.sigs, hn]; decide
 
-theorem exceptTypesW {f : Nat} (ih : SpecsW f) (acc : Node) (p : P) (hc : Cur p) (hacc : KW acc) :
-    Sat (exceptTypes (f+1) acc) p (fun r p' => Cur p' ∧ ∃ e, Ext acc r e) ET := by
+theorem exceptTypesW {f : Nat} (ih : SpecsW ts f) (acc : Node) (p : P) (hc : Cur ts p) (hacc : KW acc) :
+    Sat (exceptTypes (f+1) acc) p (fun r p' => Cur ts p' ∧ ∃ e, Ext acc r e) ET := by
   rw [exceptTypes]
   wpr (isNotEndAndNotTokens_spec _ hc)
   rintro b _ rfl
@@ -133,9 +134,9 @@ theorem exceptTypesW {f : Nat} (ih : SpecsW f) (acc : Node) (p : P) (hc : Cur p)
     exact ⟨hc3, _, he.of_add⟩
   · exact Sat.pure ⟨hc, [], Ext.refl hacc⟩
 
-theorem moreStatementsW {f : Nat} (ih : SpecsW f) (acc n : Node) (p : P) (hc : Cur p)
+theorem moreStatementsW {f : Nat} (ih : SpecsW ts f) (acc n : Node) (p : P) (hc : Cur ts p)
     (hn : ∃ t, n.tok = some t) (hacc : KW acc) :
-    Sat (moreStatements (f+1) acc n) p (fun r p' => Cur p' ∧ ∃ e, Ext acc r e) ET := by
+    Sat (moreStatements (f+1) acc n) p (fun r p' => Cur ts p' ∧ ∃ e, Ext acc r e) ET := by
   rw [moreStatements]
   obtain ⟨nt, hnt⟩ := hn
   wpr (hasMoreStatements_spec hnt hc)
@@ -160,9 +161,9 @@ theorem moreStatementsW {f : Nat} (ih : SpecsW f) (acc n : Node) (p : P) (hc : C
         exact ⟨hc3, _, he.of_add⟩
   · exact Sat.pure ⟨hc, [], Ext.refl hacc⟩
 
-theorem topLoopW {f : Nat} (ih : SpecsW f) (acc n : Node) (p : P) (hc : Cur p)
+theorem topLoopW {f : Nat} (ih : SpecsW ts f) (acc n : Node) (p : P) (hc : Cur ts p)
     (hn : ∃ t, n.tok = some t) (hacc : KW acc) :
-    Sat (topLoop (f+1) acc n) p (fun r p' => Cur p' ∧ ∃ e, Ext acc r e) ET := by
+    Sat (topLoop (f+1) acc n) p (fun r p' => Cur ts p' ∧ ∃ e, Ext acc r e) ET := by
   rw [topLoop]
   obtain ⟨nt, hnt⟩ := hn
   wpr (hasMoreStatements_spec hnt hc)
@@ -177,15 +178,15 @@ theorem topLoopW {f : Nat} (ih : SpecsW f) (acc n : Node) (p : P) (hc : Cur p)
     exact ⟨hc3, _, he.of_add⟩
   · exact Sat.pure ⟨hc, [], Ext.refl hacc⟩
 
-theorem innerStatementsW {f : Nat} (ih : SpecsW f) (acc : Node) (p : P) (hc : Cur p) (hacc : KW acc) :
-    Sat (innerStatements (f+1) acc) p (fun r p' => Cur p' ∧ ∃ k, Ext acc r [("statements", k)]) ET := by
+theorem innerStatementsW {f : Nat} (ih : SpecsW ts f) (acc : Node) (p : P) (hc : Cur ts p) (hacc : KW acc) :
+    Sat (innerStatements (f+1) acc) p (fun r p' => Cur ts p' ∧ ∃ k, Ext acc r [("statements", k)]) ET := by
   rw [innerStatements]
   wpr (skipToken_spec _ hc)
   intro _ p1 ⟨hc1, _⟩
   smk
   wpr (curIsNot_spec _ hc1)
   rintro nr _ rfl
-  apply Sat.bind (Q1 := fun st q => Cur q ∧ ∃ e, Ext (instanceOf p1.braceBlock T_STATEMENTS none) st e)
+  apply Sat.bind (Q1 := fun st q => Cur ts q ∧ ∃ e, Ext (instanceOf p1.braceBlock T_STATEMENTS none) st e)
     (E1 := ET) ?_ (fun _ he => he)
   · intro st p2 ⟨hc2, e, hst⟩
     wpr (skipToken_spec _ hc2)
@@ -208,6 +209,7 @@ end Ecal.Parse
 
 namespace Ecal.Parse
 open Ecal.Lex
+variable {ts : List Tok}
 
 theorem shapeOk_one {nm : String} {s : Sig} (h : kindOf nm = .one) : shapeOk nm [s] = true := by
   simp [shapeOk, h]
@@ -231,17 +233,17 @@ theorem wf_compaccess1 (bb : Nat) {c : Node} (hc : WellFormed c = true) :
   simp only [Node.add_name, sigs_add]
   exact shapeOk_one (by decide)
 
-theorem braced_runW {f : Nat} (ih : SpecsW f) (p : P) (hc : Cur p) :
-    Sat (withBraceBlock (run f 0)) p (fun a p' => Cur p' ∧ p'.toks.length < p'.toks.length + 1 ∧ ResW a) ET := by
+theorem braced_runW {f : Nat} (ih : SpecsW ts f) (p : P) (hc : Cur ts p) :
+    Sat (withBraceBlock (run f 0)) p (fun a p' => Cur ts p' ∧ p'.toks.length < p'.toks.length + 1 ∧ ResW a) ET := by
   unfold withBraceBlock
-  apply Sat.bind (Sat.modifyP (Q := fun _ q => Cur q) hc) (fun _ h => h)
+  apply Sat.bind (Sat.modifyP (Q := fun _ q => Cur ts q) hc) (fun _ h => h)
   intro _ q hq
   apply Sat.bind (E1 := fun _ => False) (Q1 := fun r q' => match r with
-      | .ok a => Cur q' ∧ ResW a
+      | .ok a => Cur ts q' ∧ ResW a
       | .error _ => True) _ (fun _ h => h.elim)
   · rintro r q' hr
     apply Sat.bind (Sat.modifyP (Q := fun _ q'' => match r with
-      | .ok a => Cur q'' ∧ ResW a
+      | .ok a => Cur ts q'' ∧ ResW a
       | .error _ => True) (by cases r <;> exact hr)) (fun _ h => h)
     rintro _ q'' hr'
     cases r with
@@ -249,9 +251,9 @@ theorem braced_runW {f : Nat} (ih : SpecsW f) (p : P) (hc : Cur p) :
     | error e => exact Sat.throw trivial
   · exact Sat.attempt (E' := ET) (ih.run 0 q hq) (fun e _ _ => trivial)
 
-theorem guardAndStatementsW {f : Nat} (ih : SpecsW f) (acc : Node) (p : P) (hc : Cur p) (hacc : KW acc) :
+theorem guardAndStatementsW {f : Nat} (ih : SpecsW ts f) (acc : Node) (p : P) (hc : Cur ts p) (hacc : KW acc) :
     Sat (guardAndStatements (f+1) acc) p
-      (fun r p' => Cur p' ∧ ∃ k, Ext acc r [("guard", 1), ("statements", k)]) ET := by
+      (fun r p' => Cur ts p' ∧ ∃ k, Ext acc r [("guard", 1), ("statements", k)]) ET := by
   rw [guardAndStatements]
   wpr (braced_runW ih p hc)
   intro e p1 ⟨hc1, _, hr1⟩
@@ -263,8 +265,8 @@ theorem guardAndStatementsW {f : Nat} (ih : SpecsW f) (acc : Node) (p : P) (hc :
   rw [hname, hlen] at h4
   exact ⟨hc3, k, h4⟩
 
-theorem elifsW {f : Nat} (ih : SpecsW f) (acc : Node) (p : P) (hc : Cur p) (hacc : KW acc) :
-    Sat (elifs (f+1) acc) p (fun r p' => Cur p' ∧ ∃ e, Ext acc r e ∧ ifShape e = true) ET := by
+theorem elifsW {f : Nat} (ih : SpecsW ts f) (acc : Node) (p : P) (hc : Cur ts p) (hacc : KW acc) :
+    Sat (elifs (f+1) acc) p (fun r p' => Cur ts p' ∧ ∃ e, Ext acc r e ∧ ifShape e = true) ET := by
   rw [elifs]
   wpr (isNotEndAndToken_spec _ hc)
   rintro b _ rfl
@@ -285,24 +287,24 @@ theorem shapeOk_infix {nm : String} {a b : Sig} (h : kindOf nm = .binary ∨ kin
 theorem compat_infix {k : Kind} {x : Nud} (h : kindCompat k x .infix = true) : k = .binary ∨ k = .plusminus := by
   cases k <;> cases x <;> simp_all [kindCompat]
 
-theorem loopLedW {f : Nat} (ih : SpecsW f) (rbp : Nat) (left : Node) (p : P) (hc : Cur p) (hl : ResW left) :
-    Sat (loopLed (f+1) rbp left) p (fun r p' => Cur p' ∧ ResW r) ET := by
+theorem loopLedW {f : Nat} (ih : SpecsW ts f) (rbp : Nat) (left : Node) (p : P) (hc : Cur ts p) (hl : ResW left) :
+    Sat (loopLed (f+1) rbp left) p (fun r p' => Cur ts p' ∧ ResW r) ET := by
   rw [loopLed]
   wpr (cur_spec hc)
-  rintro nx _ ⟨rfl, hnx, hfx⟩
+  rintro nx _ ⟨rfl, hnx, hfx, _⟩
   split
   · split
     · obtain ⟨lt, hlt⟩ := hl.1
-      wpr (tokOf_spec _ hlt)
+      wpr (tokOf_spec (ts := ts) _ hlt)
       rintro _ _ ⟨rfl, rfl⟩
       obtain ⟨nt, hnt⟩ := hfx.tok
-      wpr (tokOf_spec _ hnt)
+      wpr (tokOf_spec (ts := ts) _ hnt)
       rintro _ _ ⟨rfl, rfl⟩
       split
       · exact Sat.pure ⟨hc, hl⟩
       · exact Sat.throw trivial
     · next hled =>
-      wpr (advance_spec _)
+      wpr (advance_spec _ (Cur.toks (by assumption)))
       intro post p1 ⟨hc1, _⟩
       wpr (ih.run _ _ hc1)
       intro right p2 ⟨hc2, hr2⟩
@@ -325,18 +327,18 @@ theorem loopLedW {f : Nat} (ih : SpecsW f) (rbp : Nat) (left : Node) (p : P) (hc
       exact h3
   · exact Sat.pure ⟨hc, hl⟩
 
-theorem runW {f : Nat} (ih : SpecsW f) (rbp : Nat) (p : P) (hc : Cur p) :
-    Sat (run (f+1) rbp) p (fun r p' => Cur p' ∧ ResW r) ET := by
+theorem runW {f : Nat} (ih : SpecsW ts f) (rbp : Nat) (p : P) (hc : Cur ts p) :
+    Sat (run (f+1) rbp) p (fun r p' => Cur ts p' ∧ ResW r) ET := by
   rw [run]
   sget
-  wpr (advance_spec _)
+  wpr (advance_spec _ (Cur.toks (by assumption)))
   intro post p1 ⟨hc1, _⟩
   obtain ⟨hi, n, hn⟩ := hc
   simp only [hn]
-  have hf := (hi n hn).addMeta post
+  have hf := (hi.fresh n hn).addMeta post
   split
   · obtain ⟨t, ht⟩ := hf.tok
-    wpr (tokOf_spec _ ht)
+    wpr (tokOf_spec (ts := ts) _ ht)
     rintro _ _ ⟨rfl, rfl⟩
     exact Sat.throw trivial
   · next hnud =>
@@ -350,6 +352,7 @@ end Ecal.Parse
 
 namespace Ecal.Parse
 open Ecal.Lex
+variable {ts : List Tok}
 
 theorem Ext.wf_container {acc r : Node} {e : List Sig} (h : Ext acc r e) (hk : kindOf acc.name = .container) :
     WellFormed r = true := h.wf (by rw [h.name]; exact shapeOk_container hk)
@@ -378,8 +381,8 @@ theorem accept_name {c : Node} {id : Nat} {nm : String} {b x l} (h : Fresh c) (h
   subst hidt
   exact h.name_of_id ht hne htab
 
-theorem exceptsW {f : Nat} (ih : SpecsW f) (acc : Node) (p : P) (hc : Cur p) (hacc : KW acc) :
-    Sat (excepts (f+1) acc) p (fun r p' => Cur p' ∧ ∃ e, Ext acc r e ∧ e.all exceptSig = true) ET := by
+theorem exceptsW {f : Nat} (ih : SpecsW ts f) (acc : Node) (p : P) (hc : Cur ts p) (hacc : KW acc) :
+    Sat (excepts (f+1) acc) p (fun r p' => Cur ts p' ∧ ∃ e, Ext acc r e ∧ e.all exceptSig = true) ET := by
   rw [excepts]
   wpr (isNotEndAndToken_spec _ hc)
   rintro b _ rfl
@@ -391,7 +394,7 @@ theorem exceptsW {f : Nat} (ih : SpecsW f) (acc : Node) (p : P) (hc : Cur p) (ha
     intro ex2 p2 ⟨hc2, e2, hs2⟩
     wpr (curId_spec hc2)
     rintro id _ ⟨rfl, _⟩
-    apply Sat.bind (Q1 := fun ex3 q => Cur q ∧ ∃ e, Ext ex ex3 e) (E1 := ET) ?_ (fun _ he => he)
+    apply Sat.bind (Q1 := fun ex3 q => Cur ts q ∧ ∃ e, Ext ex ex3 e) (E1 := ET) ?_ (fun _ he => he)
     · intro ex3 p3 ⟨hc3, e3, hs3⟩
       wpr (ih.innerStatements _ _ hc3 hs3.kw)
       intro ex4 p4 ⟨hc4, k, hs4⟩
@@ -422,9 +425,9 @@ theorem exceptsW {f : Nat} (ih : SpecsW f) (acc : Node) (p : P) (hc : Cur p) (ha
         · exact Sat.pure ⟨hc2, _, hs2⟩
   · exact Sat.pure ⟨hc, [], Ext.refl hacc, rfl⟩
 
-theorem parseMoreW {f : Nat} (ih : SpecsW f) (self acc : Node) (p : P) (hc : Cur p)
+theorem parseMoreW {f : Nat} (ih : SpecsW ts f) (self acc : Node) (p : P) (hc : Cur ts p)
     (hself : ∃ t, self.tok = some t) (hacc : KW acc) :
-    Sat (parseMore (f+1) self acc) p (fun r p' => Cur p' ∧ ∃ e, Ext acc r e ∧ e.all identSig = true) ET := by
+    Sat (parseMore (f+1) self acc) p (fun r p' => Cur ts p' ∧ ∃ e, Ext acc r e ∧ e.all identSig = true) ET := by
   rw [parseMore]
   wpr (curId_spec hc)
   rintro id _ ⟨rfl, _⟩
@@ -457,13 +460,13 @@ theorem parseMoreW {f : Nat} (ih : SpecsW f) (self acc : Node) (p : P) (hc : Cur
       simp [identSig, hfn] at hall ⊢
       exact hall
     · wpr (cur_spec hc)
-      rintro cn _ ⟨rfl, hcn, hfc⟩
+      rintro cn _ ⟨rfl, hcn, hfc, _⟩
       obtain ⟨ct, hct⟩ := hfc.tok
-      wpr (tokOf_spec _ hct)
+      wpr (tokOf_spec (ts := ts) _ hct)
       rintro _ _ ⟨rfl, rfl⟩
       have hself' := hself
       obtain ⟨st, hst⟩ := hself
-      wpr (tokOf_spec _ hst)
+      wpr (tokOf_spec (ts := ts) _ hst)
       rintro _ _ ⟨rfl, rfl⟩
       split
       · wpr (skipToken_spec _ hc)
@@ -487,6 +490,7 @@ end Ecal.Parse
 
 namespace Ecal.Parse
 open Ecal.Lex
+variable {ts : List Tok}
 
 theorem compat_term {k : Kind} {l : Led} (h : kindCompat k .term l = true) : k = .terminal := by
   cases k <;> cases l <;> simp_all [kindCompat]
@@ -549,10 +553,11 @@ end Ecal.Parse
 
 namespace Ecal.Parse
 open Ecal.Lex
+variable {ts : List Tok}
 
-theorem nudOfW {f : Nat} (ih : SpecsW f) (self : Node) (p : P) (hc : Cur p) (hf : Fresh self)
+theorem nudOfW {f : Nat} (ih : SpecsW ts f) (self : Node) (p : P) (hc : Cur ts p) (hf : Fresh self)
     (hnud : self.nud ≠ .none) :
-    Sat (nudOf (f+1) self) p (fun r p' => Cur p' ∧ ResW r) ET := by
+    Sat (nudOf (f+1) self) p (fun r p' => Cur ts p' ∧ ResW r) ET := by
   rw [nudOf]
   obtain ⟨stok, hstok⟩ := hf.tok
   have hcompat : kindCompat (kindOf self.name) self.nud self.led = true := by
@@ -616,7 +621,7 @@ theorem nudOfW {f : Nat} (ih : SpecsW f) (self : Node) (p : P) (hc : Cur p) (hf 
     next hx =>
     rw [hx] at hcompat
     have hk := compat_func hcompat
-    apply Sat.bind (Q1 := fun s1 q => Cur q ∧ ∃ e, Ext self s1 e ∧ (e = [] ∨ ∃ n, e = [("identifier", n)]))
+    apply Sat.bind (Q1 := fun s1 q => Cur ts q ∧ ∃ e, Ext self s1 e ∧ (e = [] ∨ ∃ n, e = [("identifier", n)]))
       (E1 := ET) ?_ (fun _ he => he)
     · intro s1 p1 ⟨hc1, e1, hs1, he1⟩
       wpr (skipToken_spec _ hc1)
@@ -645,12 +650,12 @@ theorem nudOfW {f : Nat} (ih : SpecsW f) (self : Node) (p : P) (hc : Cur p) (hf 
     next hx =>
     rw [hx] at hcompat
     have hk := compat_return hcompat
-    wpr (tokOf_spec _ hstok)
+    wpr (tokOf_spec (ts := ts) _ hstok)
     rintro _ _ ⟨rfl, rfl⟩
     wpr (cur_spec hc)
-    rintro cn _ ⟨rfl, hcn, hfc⟩
+    rintro cn _ ⟨rfl, hcn, hfc, _⟩
     obtain ⟨ct, hct⟩ := hfc.tok
-    wpr (tokOf_spec _ hct)
+    wpr (tokOf_spec (ts := ts) _ hct)
     rintro _ _ ⟨rfl, rfl⟩
     split
     · wpr (ih.run _ _ hc)
@@ -735,7 +740,7 @@ theorem nudOfW {f : Nat} (ih : SpecsW f) (self : Node) (p : P) (hc : Cur p) (hf 
     wpr (braced_runW ih p hc)
     intro e p1 ⟨hc1, _, hr1⟩
     obtain ⟨et, het⟩ := hr1.1
-    wpr (tokOf_spec _ het)
+    wpr (tokOf_spec (ts := ts) _ het)
     rintro _ _ ⟨rfl, rfl⟩
     apply Sat.bind (Q1 := fun g q => q = p1 ∧ WellFormed g = true ∧
         ((g.name = "guard" ∧ g.children.length = 1) ∨ (g.name = "in" ∧ g.children.length = 2)))
@@ -760,7 +765,7 @@ theorem nudOfW {f : Nat} (ih : SpecsW f) (self : Node) (p : P) (hc : Cur p) (hf 
     intro t1 p1 ⟨hc1, k1, hs1⟩
     wpr (ih.excepts _ _ hc1 hs1.kw)
     intro t2 p2 ⟨hc2, e2, hs2, hall2⟩
-    apply Sat.bind (Q1 := fun t3 q => Cur q ∧ ∃ e, Ext self t3 (("statements", k1) :: e) ∧ e.all tryRestSig = true)
+    apply Sat.bind (Q1 := fun t3 q => Cur ts q ∧ ∃ e, Ext self t3 (("statements", k1) :: e) ∧ e.all tryRestSig = true)
       (E1 := ET) ?_ (fun _ he => he)
     · intro t3 p3 ⟨hc3, e3, hs3, hall3⟩
       wpr (curId_spec hc3)
@@ -808,7 +813,7 @@ theorem nudOfW {f : Nat} (ih : SpecsW f) (self : Node) (p : P) (hc : Cur p) (hf 
     rw [hx] at hcompat
     exact (compat_block hcompat).elim
 
-theorem specsW : ∀ f, SpecsW f
+theorem specsW : ∀ f, SpecsW ts f
   | 0 => specsW_zero
   | f+1 =>
     have ih := specsW f
@@ -821,24 +826,25 @@ end Ecal.Parse
 
 namespace Ecal.Parse
 open Ecal.Lex
+variable {ts : List Tok}
 
 /-- ParseWithRuntime's body: a returned tree is well formed (any token list, any fuel) -/
 theorem parseBody_wf (fuel : Nat) (toks : List Tok) :
     Sat (parseBody fuel) { toks := toks, node := none } (fun r _ => WellFormed r = true) ET := by
-  have ih := specsW fuel
+  have ih := specsW (ts := toks) fuel
   unfold parseBody
-  wpr (advance_spec _)
+  wpr (advance_spec (ts := toks) _ (fun t ht => ht))
   intro _ p1 ⟨hc1, _⟩
   wpr (ih.run _ _ hc1)
   intro n p2 ⟨hc2, hr2⟩
-  apply Sat.bind (Q1 := fun n' q => Cur q ∧ WellFormed n' = true) (E1 := ET) ?_ (fun _ he => he)
+  apply Sat.bind (Q1 := fun n' q => Cur toks q ∧ WellFormed n' = true) (E1 := ET) ?_ (fun _ he => he)
   · intro n' p3 ⟨hc3, hn3⟩
     apply Sat.bind (Sat.getP (Q := fun a p' => p3 = a ∧ p3 = p') ⟨rfl, rfl⟩) (fun _ he => he)
     rintro _ _ ⟨rfl, rfl⟩
     obtain ⟨hi, nx, hnx⟩ := hc3
     simp only [hnx]
-    obtain ⟨t, ht⟩ := (hi nx hnx).tok
-    wpr (tokOf_spec _ ht)
+    obtain ⟨t, ht⟩ := (hi.fresh nx hnx).tok
+    wpr (tokOf_spec (ts := toks) _ ht)
     rintro _ _ ⟨rfl, rfl⟩
     split
     · exact Sat.throw trivial
